@@ -224,40 +224,38 @@ func c06() []*Ob {
 					if fn == nil {
 						continue
 					}
-					recv := fn.Params[0]
-					found := false
-					for _, b := range fn.Blocks {
-						for _, in := range b.Instrs {
-							bo, ok := in.(*ssa.BinOp)
-							if !ok || bo.Op != token.EQL {
-								continue
-							}
-							ld, ok := bo.X.(*ssa.UnOp)
-							if !ok || !IsFieldAddr(ld.X, "seq.SamplesContainer", "Total") {
-								continue
-							}
-							if fa, ok := ld.X.(*ssa.FieldAddr); !ok || fa.X != ssa.Value(recv) {
-								continue
-							}
-							if k, isK := ConstInt(bo.Y); !isK || k != 0 {
-								continue
-							}
-							found = true
-							bad := false
-							for _, st := range InstrsIn(fn, FieldStore("seq.SamplesContainer", "Total")) {
-								if fa, ok := st.(*ssa.Store).Addr.(*ssa.FieldAddr); ok && fa.X == ssa.Value(recv) && Dominates(st, ld) {
-									bad = true
-								}
-							}
-							if bad {
-								c.Violation("order:"+name+":first-value-test", ld.Pos(), "%s adds to Total before it tests Total == 0: the first merged summary is folded against the initial Min/Max sentinels instead of being copied (wrong min/max when all values lie beyond the sentinels)", name)
-							} else {
-								c.Site(ld.Pos(), "%s tests Total == 0 before changing Total", name)
-							}
+					// the test may be in the function or in a helper called on the same container;
+					// both events are recognised on the receiver of the function they sit in
+					onRecv := func(addr ssa.Value) bool {
+						fa, ok := addr.(*ssa.FieldAddr)
+						if !ok || !IsFieldAddr(fa, "seq.SamplesContainer", "Total") {
+							return false
 						}
+						f := fa.Parent()
+						return len(f.Params) > 0 && fa.X == ssa.Value(f.Params[0])
 					}
-					if !found {
+					test := func(in ssa.Instruction) bool {
+						bo, ok := in.(*ssa.BinOp)
+						if !ok || (bo.Op != token.EQL && bo.Op != token.NEQ) {
+							return false
+						}
+						ld, ok := bo.X.(*ssa.UnOp)
+						if !ok || !onRecv(ld.X) {
+							return false
+						}
+						k, isK := ConstInt(bo.Y)
+						return isK && k == 0
+					}
+					change := func(in ssa.Instruction) bool {
+						st, ok := in.(*ssa.Store)
+						return ok && onRecv(st.Addr)
+					}
+					if !Current.Has(fn, test) {
 						c.Violation("order:"+name+":no-first-value-test", fn.Pos(), "%s no longer distinguishes the first value (Total == 0) when it folds Min/Max", name)
+						continue
+					}
+					if n := PrecedeI(c, fn, test, "the test Total == 0", change, "the update of Total"); n > 0 {
+						c.Site(fn.Pos(), "%s tests Total == 0 before changing Total", name)
 					}
 				}
 			}},
@@ -284,7 +282,7 @@ func c06() []*Ob {
 					if fn == nil {
 						continue
 					}
-					cov := SwitchCoverage(fn, isAggFunc)
+					cov := c.P.SwitchCoverageLifted(fn, isAggFunc)
 					var missing []string
 					for n, k := range uni {
 						if !cov[k] {
